@@ -409,15 +409,31 @@ Qed.
 Definition request_of (b : body) : option request :=
   match b with BadJSON => None | BadMember r => Some r | Body r => Some r end.
 
-(* nothing to mirror / no answer type: the base payload does not decode, or the message type is not served *)
+Lemma bytes_eqb_refl l : bytes_eqb l l = true.
+Proof. unfold bytes_eqb. apply list_eqb_refl. Qed.
+
+(* no answer type: the message type is not one the join-server serves *)
 Definition unanswerable (r : request) : Prop :=
-  base_decode r = Err \/
-  (r_mtype r <> s_JoinReq /\ r_mtype r <> s_RejoinReq /\ r_mtype r <> s_HomeNSReq).
+  r_mtype r <> s_JoinReq /\ r_mtype r <> s_RejoinReq /\ r_mtype r <> s_HomeNSReq.
 
 Lemma bytes_eqb_true a b : bytes_eqb a b = true -> a = b.
 Proof. apply bytes_eqb_eq. Qed.
 Lemma bytes_eqb_false a b : bytes_eqb a b = false -> a <> b.
 Proof. intros H ->. unfold bytes_eqb in H. rewrite list_eqb_refl in H. discriminate. Qed.
+
+Lemma error_answer_shape r :
+  match error_answer r with
+  | AMsg _ _ sd rv tx _ _ _ _ _ => sd = r_receiver r /\ rv = r_sender r /\ tx = r_txid r
+  | ABare st rc => st = 400 /\ rc = ROther /\ unanswerable r
+  | APanic => False
+  end.
+Proof.
+  unfold error_answer, unanswerable.
+  destruct (bytes_eqb (r_mtype r) s_JoinReq) eqn:E1; [auto|].
+  destruct (bytes_eqb (r_mtype r) s_RejoinReq) eqn:E2; [auto|].
+  destruct (bytes_eqb (r_mtype r) s_HomeNSReq) eqn:E3; [auto|].
+  apply bytes_eqb_false in E1, E2, E3. auto.
+Qed.
 
 Theorem answer_shape cfg b :
   match handle cfg b with
@@ -427,35 +443,37 @@ Theorem answer_shape cfg b :
   | APanic => True
   end.
 Proof.
-  unfold unanswerable.
-  destruct b as [|r|r]; cbn [handle request_of]; [auto| |].
-  - unfold member_error.
-    destruct (base_decode r) eqn:Eb; try exact I; [|split; [reflexivity|split; [reflexivity|right; exists r; auto]]].
-    destruct (bytes_eqb (r_mtype r) s_JoinReq) eqn:E1; [exists r; auto|].
-    destruct (bytes_eqb (r_mtype r) s_RejoinReq) eqn:E2; [exists r; auto|].
-    destruct (bytes_eqb (r_mtype r) s_HomeNSReq) eqn:E3; [exists r; auto|].
-    apply bytes_eqb_false in E1, E2, E3.
-    split; [reflexivity|]. split; [reflexivity|]. right. exists r. auto.
-  - destruct (base_decode r) eqn:Eb; try exact I; [|split; [reflexivity|split; [reflexivity|right; exists r; auto]]].
-    destruct (bytes_eqb (r_mtype r) s_JoinReq) eqn:E1.
-    { pose proof (activation_answer MJoinAns join_pipeline cfg r) as A. cbn zeta in A.
-      destruct (handle_activation MJoinAns join_pipeline cfg r); cbn [mirrors] in A.
-      - destruct A as [[]|A]; discriminate A.
-      - destruct A as [(-> & -> & ->)|A]; [|discriminate A]. exists r. auto.
-      - exact I. }
-    destruct (bytes_eqb (r_mtype r) s_RejoinReq) eqn:E2.
-    { pose proof (activation_answer MRejoinAns rejoin_pipeline cfg r) as A. cbn zeta in A.
-      destruct (handle_activation MRejoinAns rejoin_pipeline cfg r); cbn [mirrors] in A.
-      - destruct A as [[]|A]; discriminate A.
-      - destruct A as [(-> & -> & ->)|A]; [|discriminate A]. exists r. auto.
-      - exact I. }
-    destruct (bytes_eqb (r_mtype r) s_HomeNSReq) eqn:E3.
-    { unfold handle_homens.
-      destruct (field (zero_bytes 8) (unmarshal_text 8) (r_deveui r)) as [de| | |] eqn:F; try exact I.
-      - destruct (get_homenetid cfg de); exists r; auto.
-      - exists r; auto. }
-    apply bytes_eqb_false in E1, E2, E3.
-    split; [reflexivity|]. split; [reflexivity|]. right. exists r. auto.
+  assert (EA : forall r b', request_of b' = Some r ->
+     match error_answer r with
+     | AMsg _ _ sd rv tx _ _ _ _ _ =>
+       exists r0, request_of b' = Some r0 /\ sd = r_receiver r0 /\ rv = r_sender r0 /\ tx = r_txid r0
+     | ABare st rc => st = 400 /\ rc = ROther /\ (b' = BadJSON \/ exists r0, request_of b' = Some r0 /\ unanswerable r0)
+     | APanic => True
+     end).
+  { intros r b' Hb. pose proof (error_answer_shape r) as S. destruct (error_answer r); [|exists r; auto|exact I].
+    destruct S as (-> & -> & U). split; [reflexivity|]. split; [reflexivity|]. right. exists r. auto. }
+  destruct b as [|r|r]; cbn [handle]; [auto|apply EA; reflexivity|].
+  destruct (base_decode r) eqn:Eb; try exact I; [|apply EA; reflexivity].
+  cbn [request_of]. unfold unanswerable.
+  destruct (bytes_eqb (r_mtype r) s_JoinReq) eqn:E1.
+  { pose proof (activation_answer MJoinAns join_pipeline cfg r) as A. cbn zeta in A.
+    destruct (handle_activation MJoinAns join_pipeline cfg r); cbn [mirrors] in A.
+    - destruct A as [[]|A]; discriminate A.
+    - destruct A as [(-> & -> & ->)|A]; [|discriminate A]. exists r. auto.
+    - exact I. }
+  destruct (bytes_eqb (r_mtype r) s_RejoinReq) eqn:E2.
+  { pose proof (activation_answer MRejoinAns rejoin_pipeline cfg r) as A. cbn zeta in A.
+    destruct (handle_activation MRejoinAns rejoin_pipeline cfg r); cbn [mirrors] in A.
+    - destruct A as [[]|A]; discriminate A.
+    - destruct A as [(-> & -> & ->)|A]; [|discriminate A]. exists r. auto.
+    - exact I. }
+  destruct (bytes_eqb (r_mtype r) s_HomeNSReq) eqn:E3.
+  { unfold handle_homens.
+    destruct (field (zero_bytes 8) (unmarshal_text 8) (r_deveui r)) as [de| | |] eqn:F; try exact I.
+    - destruct (get_homenetid cfg de); exists r; auto.
+    - exists r; auto. }
+  apply bytes_eqb_false in E1, E2, E3.
+  split; [reflexivity|]. split; [reflexivity|]. right. exists r. auto.
 Qed.
 
 (* every answer that is a JoinAns / RejoinAns / HomeNSAns message mirrors the request *)
@@ -464,18 +482,17 @@ Theorem mirror cfg b st mt sd rv tx rc phy lt keys hn :
   exists r, request_of b = Some r /\ sd = r_receiver r /\ rv = r_sender r /\ tx = r_txid r.
 Proof. intros H. pose proof (answer_shape cfg b) as A. rewrite H in A. exact A. Qed.
 
-(* a request whose base payload decodes and whose message type is served ALWAYS gets a mirrored answer
-   message (whatever is wrong with the other members) - unless a configuration callback panics *)
+(* a JSON object whose message type is served ALWAYS gets a mirrored answer message, whatever is wrong
+   with any other member of the base or of the typed payload - unless a configuration callback panics *)
 Theorem served_is_mirrored cfg b r :
-  request_of b = Some r -> base_decode r = Ok tt ->
+  request_of b = Some r ->
   (r_mtype r = s_JoinReq \/ r_mtype r = s_RejoinReq \/ r_mtype r = s_HomeNSReq) ->
   mirrors r (handle cfg b) \/ handle cfg b = APanic.
 Proof.
-  intros Hb Hbase Hmt. pose proof (answer_shape cfg b) as A.
+  intros Hb Hmt. pose proof (answer_shape cfg b) as A.
   destruct (handle cfg b) eqn:E; [| |auto].
-  - exfalso. destruct A as (_ & _ & [->|(r' & Hr' & U)]); [discriminate Hb|].
-    rewrite Hb in Hr'. injection Hr' as <-. destruct U as [U|(U1 & U2 & U3)]; [congruence|].
-    destruct Hmt as [H|[H|H]]; contradiction.
+  - exfalso. destruct A as (_ & _ & [->|(r' & Hr' & (U1 & U2 & U3))]); [discriminate Hb|].
+    rewrite Hb in Hr'. injection Hr' as <-. destruct Hmt as [H|[H|H]]; contradiction.
   - left. destruct A as (r' & Hr' & A). rewrite Hb in Hr'. injection Hr' as <-. exact A.
 Qed.
 
@@ -555,7 +572,7 @@ Proof.
   pose proof Wd as (Lde & Bde & Lje & Bje & Lnk & Bnk & Lak & Bak).
   cbn [handle]. rewrite Hbase, Hmt. replace (bytes_eqb s_JoinReq s_JoinReq) with true by reflexivity.
   unfold handle_activation. rewrite Htyped. cbn [t_deveui]. rewrite Hkeys, Hns, Has, Hask.
-  unfold join_pipeline. cbn [t_phy t_dl t_deveui]. rewrite Hp, Hs, Hr. cbn [lift pbind]. rewrite Hpl.
+  unfold join_pipeline. cbn [t_phy t_dl t_deveui]. rewrite Hp, Hs, Hr. cbn [lift pbind]. rewrite Hpl, bytes_eqb_refl.
   cbn [pbind dk_nwkkey dk_appkey]. rewrite Hmic. cbn [lift pbind negb dk_nwkkey dk_appkey].
   rewrite (set_join_nonce_ok _ _ _ Hjn). cbn [lift pbind].
   pose proof (dls_ok dls Hdls) as D. destruct (dec_dlsettings dls) as [[o rx2] rx1] eqn:Edl. destruct D as [_ Do].
@@ -618,7 +635,8 @@ Proof.
   cbn [handle]. rewrite Hbase, Hmt. replace (bytes_eqb s_JoinReq s_JoinReq) with true by reflexivity.
   unfold handle_activation. rewrite Htyped. cbn [t_deveui]. rewrite Hkeys, Hns, Has, Hask.
   unfold join_pipeline. cbn [t_phy].
-  rewrite (phy_unmarshal_join_request je de dn m Lje Lde Lm Hdn), Hs, Hr. cbn [lift pbind pl].
+  rewrite (phy_unmarshal_join_request je de dn m Lje Lde Lm Hdn), Hs, Hr. cbn [lift pbind pl t_deveui].
+  rewrite bytes_eqb_refl. cbn [pbind].
   unfold validate_up_join_mic, calc_up_join_mic. cbn [pl payload_marshal bind mtype major Frame.Model.mic lift pbind].
   replace (mhdr_marshal 0 0) with 0 by reflexivity.
   destruct (bytes_eqb m _) eqn:E; [|reflexivity].
@@ -679,8 +697,8 @@ Qed.
 Lemma rejoin_frame_decodes d ty rc frame : wf_device d -> rc < 65536 -> rejoin_frame_of d ty rc frame ->
   exists p, phy_unmarshal frame = Ok p /\
             match pl p with
-            | PLRejoin02 t _ _ c => t = ty /\ c = rc
-            | PLRejoin1 t je _ c => t = ty /\ c = rc /\ je = d_joineui d
+            | PLRejoin02 t _ de c => t = ty /\ c = rc /\ de = d_deveui d
+            | PLRejoin1 t je de c => t = ty /\ c = rc /\ je = d_joineui d /\ de = d_deveui d
             | _ => False
             end.
 Proof.
@@ -726,10 +744,11 @@ Proof.
   unfold handle_activation. rewrite Htyped. cbn [t_deveui]. rewrite Hkeys, Hns, Has, Hask.
   unfold rejoin_pipeline. cbn [t_phy t_dl t_deveui]. rewrite Hp, Hs, Hr. cbn [lift pbind].
   assert (Etn : match pl p with
-                | PLRejoin02 ty0 _ _ rc0 => POk (ty0, d_joineui d, rc0)
-                | PLRejoin1 ty0 je _ rc0 => POk (ty0, je, rc0)
+                | PLRejoin02 ty0 _ de rc0 => if bytes_eqb de (d_deveui d) then POk (ty0, d_joineui d, rc0) else POther
+                | PLRejoin1 ty0 je de rc0 => if bytes_eqb de (d_deveui d) then POk (ty0, je, rc0) else POther
                 | _ => POther end = POk (ty, d_joineui d, rc)).
-  { destruct (pl p); try contradiction; [destruct Hpl as [-> ->]|destruct Hpl as (-> & -> & ->)]; reflexivity. }
+  { destruct (pl p); try contradiction; [destruct Hpl as (-> & -> & ->)|destruct Hpl as (-> & -> & -> & ->)];
+      rewrite bytes_eqb_refl; reflexivity. }
   rewrite Etn. cbn [pbind dk_nwkkey dk_appkey].
   rewrite (set_join_nonce_ok _ _ _ Hjn). cbn [lift pbind].
   rewrite (session_keys_ok false _ netid (d_joineui d) jn rc Hjn).
@@ -765,3 +784,4 @@ Proof.
   split. { right. unfold c16_rejoin_optneg_session_keys. cbn [In]. lia. }
   cbn [k_snwksint k_fnwksint k_nwksenc k_nwkskey k_appskey]. unfold rejoin_server_key, lsb_first. fold F. auto.
 Qed.
+
